@@ -36,9 +36,10 @@ RULE = ('one evaluation = one seeded run: (hist) a 20-150 call Cache history wit
         'lifecycle event / the fixture was read; distinct = SHA-256 of the case')
 RULE += ' ' + 'A third of the object scenarios build the FanoutCache / Deque / Index without a directory (own temporary directory) and collect the earlier handles after every lifecycle event.'
 RULE += ' ' + 'The fixture holds handles pickled by the released version (Cache, FanoutCache, Deque, Index), which must load and lead to the same collections; the FanoutCache object scenario keeps a named cache and a named index with settings of their own while the parent is reopened with explicit settings; JSONDisk histories call iterkeys().'
+RULE += ' ' + "A plain Cache object scenario loads the handle's first pickle again later while another handle changes stored settings in between."
 ASSUMPTIONS = ['a real fork() carrying an open SQLite handle is not simulated; the pid-change seam checks the library\'s reaction to it',
                'the fixture was written on POSIX by the pinned release (fixtures/make_fixture.py)']
-PROBES = ('lifecycle', 'fork', 'thread_stretch', 'pickle', 'fixture_items', 'newproc', 'move', 'own_temporary_directory', 'released_pickles_loaded', 'parent_reopened_with_settings')
+PROBES = ('lifecycle', 'fork', 'thread_stretch', 'pickle', 'fixture_items', 'newproc', 'move', 'own_temporary_directory', 'released_pickles_loaded', 'parent_reopened_with_settings', 'old_pickle_loaded', 'setting_changed_by_other_handle')
 TECHNIQUE = 'deterministic simulation (simulated processes, pid seam, thread tasks, virtual clock) + model-based checking across lifecycle events; golden-directory regression of the released on-disk format'
 LEVEL_TEXT = ('seeded exploration of histories with lifecycle events under the simulator (process identity and threads are simulated, so '
               'fork and cross-process sharing are replayable), each call compared with the reference model through whichever handle is '
@@ -59,7 +60,7 @@ def gen_case(seed, tier):
     if r < 0.15:
         return {'seed': seed, 'cfg': {'kind': 'fixture', 'ops': rng.randint(0, 12)}}
     if r < 0.35:
-        return {'seed': seed, 'cfg': {'kind': 'objects', 'which': rng.choice(('fanout', 'deque', 'index', 'django')),
+        return {'seed': seed, 'cfg': {'kind': 'objects', 'which': rng.choice(('fanout', 'deque', 'index', 'django', 'cache')),
                                       'events': [rng.choice(('reopen', 'pickle', 'newproc', 'fork')) for _ in range(rng.randint(2, 6))],
                                       'shards': rng.choice((1, 2, 3)), 'size_limit': rng.choice((None, 4000000)),
                                       'maxlen': rng.choice((None, 3, 5)), 'temp': rng.random() < 0.3, 'reopen_settings': rng.random() < 0.5}}
@@ -343,6 +344,46 @@ def run_objects(case):
                     violations.append({'rule': 'C18/contents-after-lifecycle-event', 'sig': 'named-sub-object',
                                        'detail': '%s: named cache %s (expected %s), named index %s (expected %s)' % (
                                            when, sub_items[:4], sorted(submodel.items())[:4], ix_items[:4], sorted(ixmodel.items())[:4])})
+        elif which == 'cache':
+            obj = dc.Cache(path, size_limit=10 ** 7, cull_limit=3, statistics=1)
+            stored = {'size_limit': 10 ** 7, 'cull_limit': 3, 'statistics': 1}
+            first_pickle = pickle.dumps(obj)      # a handle pickled right away: a job payload that is loaded much later
+            model = {}
+
+            def mutate(o, i):
+                k = rng.choice(('a', 'b', 1, (1, 'x'), b'z'))
+                v = 'v%d' % i
+                o.set(k, v, retry=True)
+                model[fp(k)] = fp(v)
+                if rng.random() < 0.4:
+                    # an operator changes a setting through a handle of its own: stored in the directory, so it is everybody's
+                    key, value = rng.choice((('size_limit', 5 * 10 ** 7), ('size_limit', 2 * 10 ** 7), ('cull_limit', 7), ('cull_limit', 0)))
+                    other = dc.Cache(path)
+                    other.reset(key, value)
+                    other.close()
+                    o.reset(key)
+                    stored[key] = value
+                    probes['setting_changed_by_other_handle'] = 1
+
+            def observe(o):
+                return sorted((fp(k), fp(o.get(k, retry=True))) for k in o)
+
+            def expected():
+                return sorted(model.items())
+
+            def reopen():
+                if rng.random() < 0.5:
+                    probes['old_pickle_loaded'] = 1
+                    return pickle.loads(first_pickle)
+                return dc.Cache(path)
+
+            def extra(o, when):
+                fresh = dc.Cache(path)
+                got = [{k: getattr(h, k) for k in stored} for h in (o, fresh)]
+                fresh.close()
+                if got != [stored, stored]:
+                    violations.append({'rule': 'C18/setting-not-persisted', 'sig': 'cache',
+                                       'detail': '%s: this handle %r, a fresh handle %r, stored last %r' % (when, got[0], got[1], stored)})
         elif which == 'django':
             mod = seams.install_django()
             params = {'SHARDS': cfg['shards'], 'OPTIONS': {'cull_limit': 3}}
